@@ -99,7 +99,7 @@ func (v *Value) String() string {
 	case IntValue, FloatValue, EnumValue, BooleanValue, NullValue:
 		return v.Raw
 	case StringValue, BlockValue:
-		return strconv.Quote(v.Raw)
+		return quoteString(v.Raw)
 	case ListValue:
 		var val []string
 		for _, elem := range v.Children {
@@ -119,4 +119,38 @@ func (v *Value) String() string {
 
 func (v *Value) Dump() string {
 	return v.String()
+}
+
+// quoteString renders s as a GraphQL StringValue: only the characters the lexical
+// grammar does not allow inside quotes are escaped, so the output always lexes back to s.
+func quoteString(s string) string {
+	var sb strings.Builder
+	sb.WriteByte('"')
+	for i := 0; i < len(s); i++ {
+		c := s[i]
+		switch {
+		case c == '"':
+			sb.WriteString(`\"`)
+		case c == '\\':
+			sb.WriteString(`\\`)
+		case c == '\n':
+			sb.WriteString(`\n`)
+		case c == '\r':
+			sb.WriteString(`\r`)
+		case c == '\t':
+			sb.WriteString(`\t`)
+		case c == '\b':
+			sb.WriteString(`\b`)
+		case c == '\f':
+			sb.WriteString(`\f`)
+		case c < 0x20:
+			sb.WriteString(`\u00`)
+			sb.WriteByte("0123456789abcdef"[c>>4])
+			sb.WriteByte("0123456789abcdef"[c&15])
+		default:
+			sb.WriteByte(c)
+		}
+	}
+	sb.WriteByte('"')
+	return sb.String()
 }
